@@ -635,4 +635,107 @@ theorem C15_rel_transfer (e : Spec.EntryS) (hew : e.WF) (hne : e.valueLines ≠ 
   · rw [q6, docForm_view]
   · rw [q7, docForm_substvars]
 
+/-! ### non-vacuity for sections 4 and 5 -/
+
+/-- the set/print/re-read theorem applies to the one-line example on the paragraph example of C04 … -/
+example : C04.exPara.WF ∧ C04.exPara.Term false ∧ exRel.WF ∧ Spec.ValidValue exRel.str := by
+  refine ⟨by decide, by decide, by decide +kernel, by decide +kernel⟩
+
+/-- … and to a folded field with a substitution variable (the layout the deb822 reader hands out) -/
+example : exRelFolded.docForm.WF ∧ Spec.ValidValue exRelFolded.docForm.str
+    ∧ exRelFolded.docForm.str =
+      "debhelper-compat (= 13),\nlibfoo-dev:any (>= 1.2~rc1) [amd64 !i386] <!nocheck>\n| bar,\n${misc:Depends},".toList := by
+  refine ⟨by decide +kernel, by decide +kernel, by decide +kernel⟩
+
+/-- a text with indentation of its own is outside `ValidValue` (section 4 does not cover it; on the
+    tree, section 2 does) -/
+example : ¬ Spec.ValidValue exRelFolded.str := by decide +kernel
+
+/-- `exRelFolded` as it stands in a document: one space after the colon -/
+def exRelWritten : FieldA :=
+  ⟨match exRelFolded.segs with
+    | s :: ss => { s with pre := [.ws [' ']] } :: ss
+    | [] => []⟩
+
+/-- `\n ${shlibs:Depends},\n libbar (>= 2)`: the field starts on the line after `Depends:` -/
+def exRelSecond : FieldA :=
+  ⟨[ ⟨[.nl, .ws [' ']], .substvar "shlibs".toList ["Depends".toList], []⟩,
+     ⟨[.nl, .ws [' ']], .alts ⟨"libbar".toList, none,
+        some ⟨[.ws [' ']], [], .GreaterThanEqual, [.ws [' ']], ⟨none, "2".toList⟩, []⟩, none, []⟩ [], []⟩ ]⟩
+
+def exBuildDepends : Spec.EntryS :=
+  { key := "Build-Depends".toList, ws := [' '], v := "debhelper-compat (= 13),".toList, nl := true,
+    conts := [⟨['\t'], "libfoo-dev:any (>= 1.2~rc1) [amd64 !i386] <!nocheck>".toList, true⟩,
+              ⟨"  ".toList, "| bar,".toList, true⟩,
+              ⟨[' '], "${misc:Depends},".toList, true⟩] }
+
+def exDepends : Spec.EntryS :=
+  { key := "Depends".toList, ws := [], v := [], nl := true,
+    conts := [⟨[' '], "${shlibs:Depends},".toList, true⟩, ⟨[' '], "libbar (>= 2)".toList, false⟩] }
+
+/-- a `debian/control` file -/
+def exDocRel : Spec.DocS :=
+  { lead := [],
+    paras := [
+      ({ first := { key := "Source".toList, ws := [' '], v := "foo".toList, nl := true, conts := [] },
+         rest := [.entry exBuildDepends,
+                  .entry { key := "Standards-Version".toList, ws := [' '], v := "4.6.2".toList, nl := true, conts := [] }] },
+       [.blank]),
+      ({ first := { key := "Package".toList, ws := [' '], v := "foo".toList, nl := true, conts := [] },
+         rest := [.entry exDepends] }, [])] }
+
+example : exDocRel.str =
+    ("Source: foo\nBuild-Depends: debhelper-compat (= 13),\n\tlibfoo-dev:any (>= 1.2~rc1) [amd64 !i386] <!nocheck>\n  | bar,\n ${misc:Depends},\n"
+      ++ "Standards-Version: 4.6.2\n\nPackage: foo\nDepends:\n ${shlibs:Depends},\n libbar (>= 2)").toList := by
+  decide +kernel
+
+example : exDocRel.WF := by decide
+
+/-- the hypotheses of `C15_rel_get_written` for control `Source::build_depends` on paragraph 0 … -/
+example : ∃ p gs, exDocRel.paras[0]? = some (p, gs)
+    ∧ (paraEntries p).find? (fun e => e.key == "Build-Depends".toList) = some exBuildDepends
+    ∧ exRelWritten.WF ∧ rawValue exBuildDepends = exRelWritten.str
+    ∧ exRelWritten.view = exRel.view ∧ exRelWritten.substvars = ["${misc:Depends}".toList]
+    ∧ exRelWritten.docForm = exRelFolded.docForm :=
+  ⟨_, _, rfl, by decide +kernel, by decide +kernel, by decide +kernel, by decide +kernel,
+    by decide +kernel, by decide +kernel⟩
+
+/-- … and for control `Binary::depends` on paragraph 1, the field starting on the next line -/
+example : ∃ p gs, exDocRel.paras[1]? = some (p, gs)
+    ∧ (paraEntries p).find? (fun e => e.key == "Depends".toList) = some exDepends
+    ∧ exRelSecond.WF ∧ rawValue exDepends = exRelSecond.str
+    ∧ exRelSecond.docForm.str = "${shlibs:Depends},\nlibbar (>= 2)".toList
+    ∧ exRelSecond.view = [[⟨"libbar".toList, none, none, some (.GreaterThanEqual, ⟨none, "2".toList, none⟩), []⟩]] :=
+  ⟨_, _, rfl, by decide +kernel, by decide +kernel, by decide +kernel, by decide +kernel, by decide +kernel⟩
+
+/-- the hypotheses of `C15_rel_get_parsed`: the value text in the content of paragraph 0 -/
+example : lget exDocRel.content[0] "Build-Depends".toList = some exRelFolded.docForm.str := by
+  decide +kernel
+
+/-- `validValue_parsed` / `C15_rel_transfer`: the two fields are well-formed and have a value -/
+example : exBuildDepends.WF ∧ exBuildDepends.valueLines ≠ [] ∧ exDepends.WF ∧ exDepends.valueLines ≠ [] := by
+  refine ⟨by decide, by decide, by decide, by decide⟩
+
+/-- the document text of a field is `key:` ++ `rawValue` ++ the last terminator (`EntryS.str_rawValue`) -/
+example : exBuildDepends.Term true ∧ exBuildDepends.str
+    = "Build-Depends".toList ++ ':' :: (rawValue exBuildDepends ++ ['\n']) := by
+  refine ⟨by decide, by decide +kernel⟩
+
+/-- the theorems fire: `set_build_depends(exRel)` then `build_depends()` on ANY paragraph -/
+example (cs : List DNode) : ∃ g s cs', findRow "control.Source".toList "build_depends".toList = some g
+    ∧ findRow "control.Source".toList "set_build_depends".toList = some s
+    ∧ setSem s (.text exRel.str) cs = some cs'
+    ∧ cs' = paraSet cs "Build-Depends".toList exRel.str
+    ∧ relGet g cs' = some (.ok exRel.tree) ∧ Rel.accEntries exRel.tree = some exRel.view := by
+  let g := (findRow "control.Source".toList "build_depends".toList).get (by decide +kernel)
+  let s := (findRow "control.Source".toList "set_build_depends".toList).get (by decide +kernel)
+  have hg : g ∈ Gen.Accessors.rows ∧ g.kind = .get ∧ isRelRow g = true ∧ setterOf g = some s
+      ∧ g.names = ["Build-Depends".toList] := by decide +kernel
+  obtain ⟨k, cs', h1, _, h3, h4, _, h6, h7, _⟩ :=
+    C15_rel_set_then_get g hg.1 hg.2.1 hg.2.2.1 s hg.2.2.2.1 cs exRel (by decide +kernel) (by decide +kernel)
+  have hk : k = "Build-Depends".toList := by
+    have := hg.2.2.2.2; rw [h1] at this; simpa using this
+  subst hk
+  exact ⟨g, s, cs', by simp [g], by simp [s], h3, h4, h6, h7⟩
+
 end Deb822Verif.Props.C15
